@@ -50,7 +50,7 @@ ASBUILT_WITNESSES = [
     _w(2, ["none", "none"], "Real", "start", [{"k": "comp", "i": 2, "e": "lit"}]),                      # dotted attribute -> value
     _w(2, ["none", "none"], "Real", "min", [{"k": "comp", "i": 2, "e": "ref"}]),                        # inner scope
     _w(1, ["none"], "aaR", "max", [{"k": "decl", "i": 1, "e": "lit"}]),                                 # alias of alias
-    _w(3, ["none", "none", "none"], "Real", "value", [{"k": "decl", "i": 1, "e": "ref"}], same=True),   # renamed again
+    _w(4, ["none"] * 4, "Real", "value", [{"k": "comp", "i": 2, "e": "ref"}], same=True),              # renamed again (a.a.p -> a.a.a.p)
 ]
 
 
